@@ -34,7 +34,7 @@ ASSUMPTIONS = [
   'pop is only generated when no selected Variable is shared between paths or sits directly inside a list/dict/tuple (behaviour the property does not pin down)',
   'there is no scheduler or I/O behind this property; the simulator contributes long aliasing/edit histories against a model, gc instants and identity checks',
 ]
-PROBES = ['shared_variable', 'shared_or_cyclic_node', 'self_reference', 'pytree_container', 'long_list_container', 'cycle_in_graph', 'split_nonexhaustive_raises', 'merge_shuffled', 'update_foreign', 'pop_done', 'graphdef_differs_after_edit', 'gc_event', 'metadata_edited_in_place', 'snapshot_restored']
+PROBES = ['shared_variable', 'shared_or_cyclic_node', 'self_reference', 'pytree_container', 'long_list_container', 'cycle_in_graph', 'split_nonexhaustive_raises', 'merge_shuffled', 'update_foreign', 'pop_done', 'graphdef_differs_after_edit', 'gc_event', 'metadata_edited_in_place', 'snapshot_restored', 'container_root']
 
 
 def setup_worker(w, tier):
@@ -55,7 +55,7 @@ def generate(rs, tier):
       fs = [W.gen_filter(g) for _ in range(nf)]
       if nf and g.random() < 0.7:
         fs[-1] = {'e': True}
-      api = dict(op='split_merge', root=root, filters=fs, shuffle=g.randrange(1000))
+      api = dict(op='split_merge', root=root, filters=fs, shuffle=g.randrange(1000), wrap=g.choice([None, None, None, 'list', 'dict', 'tuple']), root2=g.randrange(64))
     elif r < 0.40:
       api = dict(op='state', root=root, filters=[W.gen_filter(g)] if g.random() < 0.4 else [])
     elif r < 0.46:
@@ -67,7 +67,7 @@ def generate(rs, tier):
     elif r < 0.78:
       api = dict(op='pop', root=root, filters=[W.gen_filter(g) for _ in range(g.choice([1, 1, 2]))])
     elif r < 0.88:
-      api = dict(op='clone', root=root)
+      api = dict(op='clone', root=root, wrap=g.choice([None, None, 'list', 'dict']), root2=g.randrange(64))
     elif r < 0.95:
       api = dict(op='iter_graph', root=root)
     else:
@@ -160,6 +160,18 @@ def execute(plan):
         api_ops += 1
         nid = h.node(op['root'])
         m, r = h.model[nid], h.real[nid]
+        if op.get('wrap'):
+          # the root is a fresh (never aliased) plain container holding two heap nodes - possibly the same one twice
+          nid2 = h.node(op['root2'])
+          mm = W.MNode(-1, op['wrap'], op['wrap'])
+          if op['wrap'] == 'dict':
+            mm.attrs = {'first': ('ref', m), 'second': ('ref', h.model[nid2])}
+            r = {'first': r, 'second': h.real[nid2]}
+          else:
+            mm.attrs = {0: ('ref', m), 1: ('ref', h.model[nid2])}
+            r = [r, h.real[nid2]] if op['wrap'] == 'list' else (r, h.real[nid2])
+          m = mm
+          res.probe('container_root')
         if has_cycle(m):
           res.probe('cycle_in_graph')
         if k == 'split_merge':
